@@ -27,7 +27,7 @@ def run(c):
             c.broken = keep + [b for b in c.broken if b not in keep]
     # machine part: on "exceeded" all running children are stopped and the supervisor terminates with the
     # restarts-exceeded reason (real supOFO/supARFO/supSOFO vs Sup/Machine.v, and the real node)
-    sm.machine(c, "machine", spec=["spec_gives_up"], premise=["premise_gave_up"], n_quick=1000, n_thorough=12000)
+    sm.machine(c, "machine", spec=["spec_gives_up", "spec_restart_counted"], premise=["premise_gave_up", "premise_restarted"], n_quick=1000, n_thorough=12000)
     sm.e2e(c, "c09", spec=["spec_e2e_exceeded", "spec_e2e_prescribed"], premise=["premise_e2e_exceeded"], n_quick=12, n_thorough=200)
     c.assumptions += sm.ASSUMPTIONS
     c.assumptions += [
